@@ -524,6 +524,70 @@ func storesOf(al *ssa.Alloc) (recs []storeRec, escapes bool) {
 	return
 }
 
+// clobbersOf lists the instructions through which the content of the local (path nil) or of one of its fields can be
+// changed other than by a direct store: calls that receive the address, stores of the address into memory.
+func clobbersOf(al *ssa.Alloc, path []int) []ssa.Instruction {
+	var out []ssa.Instruction
+	var via func(addr ssa.Value, depth int)
+	via = func(addr ssa.Value, depth int) {
+		if depth > 4 || addr.Referrers() == nil {
+			return
+		}
+		for _, ref := range *addr.Referrers() {
+			switch x := ref.(type) {
+			case *ssa.Store:
+				if x.Val == addr {
+					out = append(out, x) // the address itself is stored somewhere
+				}
+			case *ssa.UnOp, *ssa.DebugRef:
+			case *ssa.FieldAddr:
+				via(x, depth+1)
+			case *ssa.IndexAddr:
+				via(x, depth+1)
+			case *ssa.Slice:
+				via(x, depth+1)
+			case ssa.CallInstruction:
+				// builtins that only read
+				if bi, ok := x.Common().Value.(*ssa.Builtin); ok {
+					switch bi.Name() {
+					case "len", "cap", "print", "println":
+						continue
+					case "copy", "append":
+						if len(x.Common().Args) > 0 && x.Common().Args[0] != addr {
+							continue // source operand
+						}
+					}
+				}
+				out = append(out, x)
+			case *ssa.MakeInterface, *ssa.MakeClosure, *ssa.Phi, *ssa.ChangeType, *ssa.Convert:
+				out = append(out, ref) // escapes: treat as a clobber from here on
+			}
+		}
+	}
+	for _, ref := range *al.Referrers() {
+		switch x := ref.(type) {
+		case *ssa.FieldAddr:
+			if len(path) == 0 || x.Field == path[0] {
+				via(x, 0)
+			}
+		case *ssa.Store:
+			if x.Val == ssa.Value(al) {
+				out = append(out, x)
+			}
+		case *ssa.UnOp, *ssa.DebugRef:
+		case *ssa.IndexAddr:
+			via(x, 0)
+		case *ssa.Slice:
+			via(x, 0)
+		case ssa.CallInstruction:
+			out = append(out, x)
+		case *ssa.MakeInterface, *ssa.MakeClosure, *ssa.Phi, *ssa.ChangeType, *ssa.Convert:
+			out = append(out, ref)
+		}
+	}
+	return out
+}
+
 func hasStoreThrough(v ssa.Value) bool {
 	refs := v.Referrers()
 	if refs == nil {
@@ -623,6 +687,17 @@ func (r *Resolver) reaching(al *ssa.Alloc, path []int, ld ssa.Instruction, fr *F
 			continue
 		}
 		return nil
+	}
+	// the address (of the local, or of the queried field) handed to a call between the chosen store and the load: the
+	// callee may have written through it, so the stored value is not what the load sees
+	for _, k := range clobbersOf(al, path) {
+		if k == ssa.Instruction(best.st) {
+			continue
+		}
+		after := dominatesInstr(best.st, k) || reachesWithout(best.st, k, nil)
+		if after && (k == ld || reachesWithout(k, ld, best.st)) {
+			return nil
+		}
 	}
 	o := r.Of(best.st.Val, fr, best.st)
 	if len(path) == 1 && best.field == -1 {
